@@ -22,7 +22,7 @@ REQUIRED = {"multiplier": {"quick": 60, "thorough": 400}, "closed_form": {"quick
             "reversal": {"quick": 8, "thorough": 40}, "wave_propagator": {"quick": 6, "thorough": 30}}
 ASSUMPTIONS = ["float64 session", "states strictly below Nyquist (classified by the model's own full FFT)",
                "modes with |Re dt*sigma| > 600 are overflow-skipped"]
-TIMEOUT = {"quick": 600, "thorough": 2400}
+TIMEOUT = {"quick": 2400, "thorough": 7200}
 
 LINEAR = [n for n, s in zoo.SPECS.items() if s["linear"] and n != "stepper.Wave"]
 EPS = np.finfo(np.float64).eps
